@@ -87,6 +87,9 @@ pub enum GateOutcome {
     Err,
     /// v5 only: handler error that the application maps to a negative ack with this code
     Nack(u8),
+    /// v5 publish handlers: the handler *succeeds* and returns an acknowledgement carrying this reason code
+    /// (`Ok(p.ack().reason_code(..))`) - a refusal that does not go through the error mapping
+    OkCode(u8),
 }
 
 #[derive(Default)]
@@ -910,6 +913,7 @@ async fn v5_publish_handler(
     guard.finish();
     log.push(Rec::HExit { k, outcome: o });
     match o {
+        GateOutcome::OkCode(c) => Ok(p.ack().reason_code(v5::codec::PublishAckReason::try_from(c).unwrap_or(v5::codec::PublishAckReason::UnspecifiedError))),
         GateOutcome::Ok if cfg.ack_decor => Ok(p.ack().reason(bs("rs")).properties(|u| u.push((bs("k"), bs(&"v".repeat(40)))))),
         GateOutcome::Ok => Ok(p.ack()),
         GateOutcome::Err => Err(TErr::Plain),
@@ -952,7 +956,7 @@ async fn v3_publish_handler(
     guard.finish();
     log.push(Rec::HExit { k, outcome: o });
     match o {
-        GateOutcome::Ok => Ok(()),
+        GateOutcome::Ok | GateOutcome::OkCode(_) => Ok(()),
         _ => Err(TErr::Plain),
     }
 }
@@ -980,7 +984,7 @@ async fn ctl_service<R>(c: Control<TErr>, log: Log, mode: CtlMode, own: Option<R
             let o = g.wait(k).await;
             g.st.borrow_mut()[k].exited = true;
             match o {
-                GateOutcome::Ok => Ok(None),
+                GateOutcome::Ok | GateOutcome::OkCode(_) => Ok(None),
                 GateOutcome::Nack(_) => Ok(own),
                 GateOutcome::Err => Err(TErr::Plain),
             }
@@ -1089,7 +1093,7 @@ macro_rules! v5_parts {
             guard.finish();
             log.push(Rec::PExit { k: guard.k });
             match o {
-                GateOutcome::Ok => Ok::<_, TErr>(match msg {
+                GateOutcome::Ok | GateOutcome::OkCode(_) => Ok::<_, TErr>(match msg {
                     v5::ProtocolMessage::Subscribe(mut m) => {
                         m.iter_mut().for_each(|mut s| s.confirm(v5::QoS::AtMostOnce));
                         m.ack()
@@ -1195,7 +1199,7 @@ macro_rules! v3_parts {
             guard.finish();
             log.push(Rec::PExit { k: guard.k });
             match o {
-                GateOutcome::Ok => Ok::<_, TErr>(match msg {
+                GateOutcome::Ok | GateOutcome::OkCode(_) => Ok::<_, TErr>(match msg {
                     v3::ProtocolMessage::Subscribe(mut m) => {
                         m.iter_mut().for_each(|mut s| s.confirm(v3::QoS::AtMostOnce));
                         m.ack()
@@ -1539,7 +1543,7 @@ pub async fn start_v5_client(cfg: &EpCfg) -> Conn {
                         guard.finish();
                         log.push(Rec::HExit { k, outcome: o });
                         match o {
-                            GateOutcome::Ok => Ok::<_, TErr>(p.ack(v5::codec::PublishAckReason::Success)),
+                            GateOutcome::Ok | GateOutcome::OkCode(_) => Ok::<_, TErr>(p.ack(v5::codec::PublishAckReason::Success)),
                             GateOutcome::Nack(code) => Ok(p.ack(
                                 v5::codec::PublishAckReason::try_from(code).unwrap_or(v5::codec::PublishAckReason::UnspecifiedError),
                             )),
@@ -1564,7 +1568,7 @@ pub async fn start_v5_client(cfg: &EpCfg) -> Conn {
                                 )
                                 .reason_string(Some("proto".into())),
                             )),
-                            GateOutcome::Ok => Ok(other.ack()),
+                            GateOutcome::Ok | GateOutcome::OkCode(_) => Ok(other.ack()),
                         }
                     }
                 }
@@ -1675,7 +1679,7 @@ pub async fn start_v3_client(cfg: &EpCfg) -> Conn {
                         guard.finish();
                         log.push(Rec::HExit { k, outcome: o });
                         match o {
-                            GateOutcome::Ok => Ok::<_, TErr>(p.ack()),
+                            GateOutcome::Ok | GateOutcome::OkCode(_) => Ok::<_, TErr>(p.ack()),
                             _ => Err(TErr::Plain),
                         }
                     }
